@@ -1,3 +1,5 @@
+import math
+
 import torch
 from torch import Tensor
 from torch.distributions import constraints
@@ -200,14 +202,15 @@ class PiecewiseConstantBirthDeath(Distribution):
     def log_q(self, A, B, t, t_i):
         """Probability density of lineage alive between time t and t_i gives
         rise to observed clade."""
-        e = torch.exp(-A * (t - t_i))
-        return torch.log(
-            4.0
-            * e
-            / torch.pow(
-                e * (1.0 + B) + (1.0 - B),
-                2,
-            )
+        # log(4e / (e(1+B) + (1-B))^2) with e=exp(x), written so that it does
+        # not overflow when |x| is large
+        x = -A * (t - t_i)
+        x_pos = x.clamp(min=0.0)
+        x_neg = x.clamp(max=0.0)
+        return math.log(4.0) + torch.where(
+            x > 0.0,
+            -x_pos - 2.0 * torch.log((1.0 + B) + torch.exp(-x_pos) * (1.0 - B)),
+            x_neg - 2.0 * torch.log(torch.exp(x_neg) * (1.0 + B) + (1.0 - B)),
         )
 
     def p0(self, A, B, t, t_i):
@@ -217,7 +220,7 @@ class PiecewiseConstantBirthDeath(Distribution):
             self.lambda_
             + self.mu
             + self.psi
-            - A * (term - one_minus_Bi) / (term + one_minus_Bi)
+            - A * (1.0 - 2.0 * one_minus_Bi / (term + one_minus_Bi))
         ) / (2.0 * self.lambda_)
 
     def log_p(self, t, t_i, rho):
@@ -246,7 +249,7 @@ class PiecewiseConstantBirthDeath(Distribution):
             one_minus_Bi = 1.0 - B[..., i]
             p[..., i] *= (
                 sum_term[..., i]
-                - A[..., i] * (term - one_minus_Bi) / (term + one_minus_Bi)
+                - A[..., i] * (1.0 - 2.0 * one_minus_Bi / (term + one_minus_Bi))
             ) * inv_2lambda[..., i]
         return p, A, B
 
